@@ -32,7 +32,7 @@ PROPS = {
                 note='std Write::write_all/write_fmt contract assumed'),
 }
 
-PROPS['C09'] = dict(level='proof', steps=[V('stream')],
+PROPS['C09'] = dict(level='proof', steps=[V('stream'), E3('c09-filters')],
                 title='Stream filters decode as specified; compression is lossless',
                 technique='Verus contracts on extracted PNG predictor code against PNG 9.2 reconstruction functions',
                 text='PNG predictor decoding equals the PNG 9.2 definition, ASCII85 decoding equals ISO 7.4.3, predictor dispatch and geometry, and the Length / Filter / DecodeParms bookkeeping of new, set_content, set_plain_content, compress, decompress, for every input (Verus).',
